@@ -488,11 +488,12 @@ impl AddressLookupServices {
     ///
     /// If there is historical Address Lookup data, it will be published immediately on this service.
     pub fn add_boxed(&self, service: Box<dyn AddressLookup>) {
-        {
-            let data = self.last_data.read().expect("poisoned");
-            if let Some(data) = &*data {
-                service.publish(data)
-            }
+        // Keep `last_data` locked until the service is registered: a concurrent `publish`
+        // must either find the service in the registry or have stored its data before we
+        // read it, otherwise the new service would miss that update.
+        let data = self.last_data.read().expect("poisoned");
+        if let Some(data) = &*data {
+            service.publish(data)
         }
         self.services.write().expect("poisoned").push(service);
     }
@@ -519,15 +520,15 @@ impl AddressLookupServices {
             Some(filter) => data.apply_filter(filter),
             None => Cow::Borrowed(data),
         };
+        // Lock `last_data` first (same order as `add_boxed`) and hold it while distributing:
+        // this serializes concurrent publishers and excludes services being added halfway.
+        let mut last_data = self.last_data.write().expect("poisoned");
         let services = self.services.read().expect("poisoned");
         for service in &*services {
             service.publish(&data);
         }
 
-        self.last_data
-            .write()
-            .expect("poisoned")
-            .replace(data.into_owned());
+        last_data.replace(data.into_owned());
     }
 
     /// Resolves the addressing information for an [`EndpointId`] across all configured services.
